@@ -308,6 +308,11 @@ def run_c04(tier, seed, replay=None):
             sym = [f"case h{hi}"] + (["boot listen=flag:1 dir=flag allow=none versions=default days=default"] if via_http else [])
             for j, r in enumerate(reqs):
                 sym += [r, f"ack {j + 1}"]
+                if j == 0 and not via_http and hi % 2 == 1:
+                    # a second connection to the database stays open during the rest of the history (another request in
+                    # flight, a monitoring query): no close is then the last one, nothing is checkpointed behind a commit,
+                    # and what is acknowledged is durable only through what the COMMIT itself has synced
+                    sym.append("hold")
             sym += [f"savestate {hd}/ids.txt", "end"]
             text = "\n".join(sym) + "\n"
             datadir = os.path.join(hd, "data")
